@@ -257,13 +257,20 @@ type c16Env struct {
 	stop      chan struct{}
 }
 
-func newC16Env(maxInFlight int, newTime bool, timeout time.Duration) *c16Env {
+func newC16Env(maxInFlight int, newTime bool, timeout time.Duration, receiverOther ...bool) *c16Env {
 	e := &c16Env{net: &memNet{layers: map[string]*memLayer{}}, stop: make(chan struct{}), readLimit: -1}
-	mk := func(addr string) *raft.NetworkTransport {
+	mk := func(addr string, nt bool) *raft.NetworkTransport {
 		return raft.NewNetworkTransportWithConfig(&raft.NetworkTransportConfig{Stream: e.net.layer(addr), MaxPool: 2, MaxRPCsInFlight: maxInFlight, Timeout: timeout,
-			Logger: hclog.NewNullLogger(), MsgpackUseNewTimeFormat: newTime})
+			Logger: hclog.NewNullLogger(), MsgpackUseNewTimeFormat: nt})
 	}
-	e.t1, e.t2 = mk("n1"), mk("n2")
+	// MsgpackUseNewTimeFormat is a sender-side option ("decoding is not
+	// affected"): the two ends of a connection may be configured differently
+	// while a cluster is being upgraded
+	recv := newTime
+	if len(receiverOther) > 0 && receiverOther[0] {
+		recv = !newTime
+	}
+	e.t1, e.t2 = mk("n1", newTime), mk("n2", recv)
 	go func() {
 		n := 0
 		for {
@@ -337,6 +344,7 @@ type c16Seq struct {
 	Test     string    `json:"test"`
 	Mode     string    `json:"mode"`
 	NewTime  bool      `json:"new_time_format"`
+	Mixed    bool      `json:"receiver_uses_the_other_time_format,omitempty"`
 	Calls    []c16Call `json:"calls"`
 	Detail   string    `json:"detail,omitempty"`
 }
@@ -387,7 +395,7 @@ func (c c16Call) nonEmpty() bool {
 // the handler must receive exactly the request sent, the caller exactly the
 // response (or the error) the handler produced. Runs inside a bubble.
 func c16RunSeq(seq *c16Seq) string {
-	e := newC16Env(2, seq.NewTime, time.Second)
+	e := newC16Env(2, seq.NewTime, time.Second, seq.Mixed)
 	defer e.close()
 	for i, c := range seq.Calls {
 		c := c
@@ -559,7 +567,7 @@ func TestC16RoundTrip(t *testing.T) {
 		if r.Frozen() {
 			return
 		}
-		seq := &c16Seq{Property: "C16", Engine: "unit", Test: "TestC16Replay", Mode: "sequence", NewTime: rapid.Bool().Draw(rt, "newTimeFormat")}
+		seq := &c16Seq{Property: "C16", Engine: "unit", Test: "TestC16Replay", Mode: "sequence", NewTime: rapid.Bool().Draw(rt, "newTimeFormat"), Mixed: rapid.IntRange(0, 2).Draw(rt, "mixedTimeFormat") == 0}
 		n := rapid.IntRange(1, 4).Draw(rt, "calls")
 		nonEmpty, errThenMore := false, false
 		var kinds []string
@@ -574,7 +582,7 @@ func TestC16RoundTrip(t *testing.T) {
 		}
 		var detail string
 		sim.Bubble(t, func() { detail = c16RunSeq(seq) })
-		r.Case(nonEmpty, rep.Hash(fmt.Sprint(kinds), seq.NewTime, errThenMore, rt), kinds[0], map[bool]string{true: "handler-error-then-more-calls", false: "no-handler-error-before-a-call"}[errThenMore])
+		r.Case(nonEmpty, rep.Hash(fmt.Sprint(kinds), seq.NewTime, seq.Mixed, errThenMore, rt), kinds[0], map[bool]string{true: "handler-error-then-more-calls", false: "no-handler-error-before-a-call"}[errThenMore], map[bool]string{true: "ends-configured-with-different-time-formats", false: "ends-configured-alike"}[seq.Mixed])
 		if nonEmpty && r.WantSample() {
 			r.Sample(map[string]any{"rpcs": kinds, "new_time_format": seq.NewTime, "handler_error_then_more_calls": errThenMore})
 		}
